@@ -283,7 +283,15 @@ EL_FUNCS = {
 
 # creation functions have no array argument, so numpy's dispatch protocol never
 # sees them: they are patched on the numpy module while a symbolic run is active
-CREATION = {"empty": el_empty, "zeros": el_zeros, "ones": el_ones, "full": el_full, "arange": el_arange}
+def el_int_(x=0, *a, **k):
+    """numpy.int_(list) -> integer array with the list's items"""
+    if hasattr(x, "vlen") and not isinstance(x, EArr):
+        at = x._at
+        return EArr((x.vlen(),), lambda i: at(i), numpy.int64)
+    raise Unsupported("numpy.int_ of %r" % type(x))
+
+
+CREATION = {"int_": el_int_, "empty": el_empty, "zeros": el_zeros, "ones": el_ones, "full": el_full, "arange": el_arange}
 
 
 class patched_numpy:
@@ -312,7 +320,7 @@ class patched_numpy:
 
 def _has_sym(a, k):
     def chk(x):
-        if sym.is_sym(x) or isinstance(x, EArr):
+        if sym.is_sym(x) or isinstance(x, EArr) or (hasattr(x, "vlen") and hasattr(x, "append")):
             return True
         if isinstance(x, (tuple, list)):
             return any(chk(y) for y in x)
